@@ -713,7 +713,16 @@ Eval(e, env, log) ==
       [] e[1] = "mcall" ->
             LET r == Eval(e[2], env, log)
                 f == e[3]
-            IN IF IsErr(r.v) THEN r
+            \* <set>.distinct(key).len(): which elements survive depends on the set's order, how many does not - the number of
+            \* different keys
+            IN IF f = "len" /\ e[4] = <<>> /\ e[2][1] = "mcall" /\ e[2][3] = "distinct" /\ Len(e[2][4]) = 1 /\ e[2][5] = <<>>
+                  /\ IsSet(Eval(e[2][2], env, log).v) THEN
+                    LET s0 == Eval(e[2][2], env, log)
+                        m == MapLam(<<"lam", e[2][4][1], env>>, s0.v[2], s0.log, <<>>)
+                    IN IF IsErr(m.v) THEN m
+                       ELSE IF \E i \in 1..Len(m.v[2]) : ~Hashable(m.v[2][i]) THEN R(UnH, m.log)
+                       ELSE R(I(Len(Dedup(m.v[2], <<>>))), m.log)
+               ELSE IF IsErr(r.v) THEN r
                \* a method of a yaqlized host object (the harness's probe object `hm` returns its positional arguments followed by
                \* the named ones a, b, note): arguments are evaluated once each, positional ones first, then named ones as written
                ELSE IF r.v[1] = "o" /\ f = "hm" THEN
